@@ -6,8 +6,8 @@ sys.path.insert(0, os.path.join(V, 'py'))
 
 CHECKS = {
  # id: (category, engine, technique, level text, level_note, design_ref)
- 'C01': ('exploration', 'hx', 'reference-model monitor over seeded operation histories (differential oracle after every step)',
-         'Every step of thousands of seeded multi-user histories is compared with a sequential reference model (exists/authenticate/list/list-full, admin flag, last-changed bracket, upgradeable flag) and probed with near-miss passwords judged by an independent model of the PBKDF2 key equivalence. Exploration is the right level: the quantifier is over all histories and byte strings, which can only be sampled.',
+ 'C01': ('exploration', 'hx+ovl', 'reference-model monitor over seeded operation histories (differential oracle after every step)',
+         'Every step of thousands of seeded multi-user histories is compared with a sequential reference model (exists/authenticate/list/list-full, admin flag, last-changed bracket, upgradeable flag) and probed with near-miss passwords judged by an independent model of the PBKDF2 key equivalence. A second stage replays such histories through the agent request interface (upgrades off/local) and checks verdict, admin flag, last-changed and list after every operation. Exploration is the right level: the quantifier is over all histories and byte strings, which can only be sampled.',
          'Trusts the reference model (go/ref), x/crypto primitives, and that sampled histories are representative; held on the executions observed.', '5 C01'),
  'C02': ('exploration', 'hx', 'sandwich oracle (strict/permissive independent record parser + digest recomputation) over systematic record mutants',
          'Systematic mutants of reference-written records for every parameter set are authenticated with right/empty/wrong passwords and put through list, list-full, add, update and remove; verdicts are judged by an independent schema implementation with a strict and a permissive reading, so only answers outside the latitude the schema leaves are flagged. Canonical foreign-written records must authenticate.',
@@ -15,26 +15,26 @@ CHECKS = {
  'C05': ('exploration', 'hx', 'trace monitor on a raw unix-socket client + callback recorder, judged by a reference wire decoder; Go race detector on the same runs',
          'Thousands of scripted byte streams (valid, truncated at every byte, over-long, padded, random) under scripted fragmentations, pauses and end modes are sent to the real sasl.Server; a monitor attributes every callback invocation to its connection and checks call count, argument equality, the one-part-then-EOF reply shape, the OK-only-if-approved rule and decodability of every reply by the bundled client decoder, for scripted callback outcomes with messages up to 70000 bytes; 64-way concurrent phase under -race.',
          'Trusts go/ref/wire.go; a request kept open forever is not a finished byte stream (nothing asserted); the compiled PAM module reads real replies in the C20 check.', '5 C05'),
- 'C13': ('exploration', 'hx', 'differential oracle against a reference codec; scripted io.Readers for fragment independence',
+ 'C13': ('exploration', 'hx+pamh', 'differential oracle against a reference codec; scripted io.Readers for fragment independence',
          'All 5^4 length combinations at the limit values x 3 content classes for the request encoder (exhaustive over that finite grid), response messages around the limits, decoder-vs-reference on mutated encodings / random bytes / the repository fuzz corpus, and every input re-decoded under 1-byte, 2-way, k-way, zero-length-read and data-with-EOF fragmentations, which must equal the one-piece result.',
-         'Trusts go/ref/wire.go. The PAM encoder comparison runs in the pam-encoder stage once the C harness is built.', '5 C13'),
+         'Trusts go/ref/wire.go. The PAM encoder clause is decided by the pam-encoder stage: the compiled module (with short writes injected) talks to a recording server and the bytes are compared with sasl.Request.Marshal.', '5 C13'),
  'C14': ('exploration', 'hx', 'strict reference parser + independent digest recomputation over records written under generated YAML configurations',
          'Every record written by add/update (incl. same-password rewrites of back-dated records, default switches) under hundreds of generated YAML parameter sets is parsed strictly and its digest recomputed with x/crypto primitives directly from the YAML values; salt sizes, salt reuse across the whole run, timestamp brackets, base64 form and absence of passwords / HMAC keys from the directory are monitored.',
          'Trusts x/crypto scrypt/argon2 and crypto/hmac as the independent implementation.', '5 C14'),
  'C03': ('exploration', 'hx+sctrace', 'whole-tree snapshot monitor around every call with hostile names; syscall path monitor (strace) over a driver process',
-         'Every hostile user name of a generated corpus is passed to every store entry point on a sandbox with a sibling store and decoys; results must be failures and whole-tree snapshots (content, type, mode, inode) must be identical; planted invalid-named files with valid hashes must never list, authenticate or count as the required admin; a control group of valid names must keep working.',
+         'Every hostile user name of a generated corpus is passed to every store entry point on a sandbox with a sibling store and decoys; results must be failures and whole-tree snapshots (content, type, mode, inode) must be identical; planted invalid-named files with valid hashes must never list, authenticate or count as the required admin; a control group of valid names must keep working. Stage 2 runs the same calls (and single-operation scenarios incl. an unusable work area) under strace and checks every path-taking syscall between marker syscalls against the allowed paths; stage 3 submits the corpus and planted invalid-named files through every frontend and the API management endpoints of the running binary.',
          'Trusts the snapshot walker and the grammar implementation in go/ref; paths reached through symlinks are not in the sandbox.', '5 C03'),
  'C07': ('exploration', 'ovl', 'in-package monitor with an issued-token table and a lenient reference decoder; race detector',
          'Every single-bit flip, character substitution, truncation, extension and splice of issued tokens, other-instance tokens and chosen plaintexts sealed with the factory key are presented; acceptance is allowed only for decoded content equal to an issued (nonce, ciphertext) pair and must return the issued identity; nonce uniqueness over 10^5..2*10^6 sequential plus 16-way concurrent issuances under -race.',
          'Not a cryptographic argument about AES-GCM; time-window cases keep a 3 s margin and are re-run on clock stalls.', '5 C07'),
- 'C10': ('exploration', 'ovl', 'bounded-progress monitor with goroutine-dump analysis proving a permanent block; delay failpoints; race detector',
-         'Mixed request load from 4-64 clients over all upgrade modes (off/local/remote healthy, unreachable, stalled), hook directories with hanging scripts, all frontends; the monitor requires every request to return and a probe per request channel afterwards, and reports a violation only when two goroutine dumps prove the dispatcher blocked at the same place. Queue-occupancy histogram at upgrade enqueue shows the risky state (queue full) was reached.',
+ 'C10': ('exploration', 'ovl+hx', 'bounded-progress monitor with goroutine-dump analysis proving a permanent block; delay failpoints; race detector',
+         'Mixed request load from 4-64 clients over all upgrade modes (off/local/remote healthy, unreachable, stalled), hook directories with hanging scripts, all frontends; the monitor requires every request to return and a probe per request channel afterwards, and reports a violation only when two goroutine dumps prove the dispatcher blocked at the same place. Queue-occupancy histogram at upgrade enqueue shows the risky state (queue full) was reached. A second stage exhausts the descriptors of the running binary (low RLIMIT_NOFILE) and requires it to keep accepting afterwards.',
          'Liveness restated as bounded progress; schedules are steered, not enumerated.', '5 C10'),
  'C11': ('exploration', 'ovl', 'porcupine linearizability check of client-boundary histories against a sequential store model; final-state conservation checks; race detector',
          'Hundreds to thousands of short concurrent histories with unique written values, recorded at the client boundary over all frontends, with sequential final reads after a FIFO barrier, are checked with porcupine (partitioned by user); the final directory must match the linearized state; 64-way cross-talk phase; all under -race with varied dispatcher failpoints. Evidence counts histories in which an upgrade executed after a later update (the harmful pattern).',
          'Trusts porcupine v1.3.0 and the sequential model; checker timeouts are inconclusive.', '5 C11'),
  'C18': ('exploration', 'hx+ovl', 'must-accept/must-reject predicates over structurally mutated YAML; accepted sets exercised (hash+verify); reload monitor',
-         'Hundreds of YAML documents derived from valid configurations by field deletion, duplication, type change, unknown keys and numeric edges are loaded; the verdict must match the rule the generator broke, and every accepted parameter set must hash-and-verify or fail with an error (panic/hang = violation).',
+         'Hundreds of YAML documents derived from valid configurations by field deletion, duplication, type change, unknown keys and numeric edges are loaded; the verdict must match the rule the generator broke, and every accepted parameter set must hash-and-verify or fail with an error (panic/hang = violation). Reload stages (in-process with real SIGHUPs, and black-box against the binary) identify the configuration being served from behaviour after good reloads, unloadable documents and configurations whose directory fails the check, with background clients running through all of them.',
          'Parameter values needing > 256 MiB or unbounded time are not generated; duplicate ids unasserted.', '5 C18'),
  'C08': ('fault_enumeration', 'sctrace+hx', 'real SIGKILL at every syscall boundary (strace injection) + offline persistence-model enumeration of post-crash states, each judged by a fresh-process recovery oracle; concurrent raw readers',
          'For every add/update/init scenario the operation is killed for real on entry to every file-system-relevant syscall (boundary coverage is measured and every boundary is hit), and an offline model of the stated persistence semantics enumerates, at every boundary, every combination of lost/kept pending directory operations and unsynced data prefixes; each distinct state is materialised and judged by a fresh process (old-complete / new-complete / absent / empty reservation, passwords, other files, consistency check, residue). The simulator is cross-checked against the real post-kill directories. A separate writer process is raced by raw readers.',
@@ -42,8 +42,8 @@ CHECKS = {
  'C09': ('fault_enumeration', 'sctrace', 'persistence-model enumeration of post-acknowledgement crash states from the recorded syscall trace + write/fsync/rename ordering monitor',
          'For every successful mutating operation the recorded syscalls are replayed into the persistence model and every state reachable after the acknowledgement (any subset of not-yet-fsynced entry operations lost) is materialised and must show the change; an ordering monitor checks fsync(file) before the rename and fsync(base) before the acknowledgement.',
          'Relative to the stated persistence model and the syscalls of one traced execution per scenario.', '5 C09'),
- 'C15': ('fault_enumeration', 'sctrace', 'every-single-fault injection at syscall level (strace error injection) with a fresh-process byte-identity oracle; syscall monitor for read-only calls',
-         'For each mutating scenario every syscall between the markers that can fail is made to fail once with each applicable errno (ENOSPC, EIO, EACCES, EMFILE); a reported failure must leave the store byte-identical, a reported success must be complete; hostile auxiliary data must survive updates byte for byte, set-admin must keep the inode; semantically failing and read-only calls must issue no mutating syscall on the store and leave it byte- and inode-identical.',
+ 'C15': ('fault_enumeration', 'sctrace+hx', 'every-single-fault injection at syscall level (strace error injection) with a fresh-process byte-identity oracle; syscall monitor for read-only calls',
+         'For each mutating scenario every syscall between the markers that can fail is made to fail once with each applicable errno (ENOSPC, EIO, EACCES, EMFILE); a reported failure must leave the store byte-identical, a reported success must be complete; hostile auxiliary data must survive updates byte for byte, set-admin must keep the inode; semantically failing and read-only calls must issue no mutating syscall on the store and leave it byte- and inode-identical. A second stage runs the binary under strace -ff while only read-only / refused requests arrive on all frontends (SASL, LDAP bind/search/modify/add/delete, refused HTTP) and searches every thread log for mutating syscalls on the store.',
          'Single faults only; the fault is injected at the syscall boundary (the syscall does not execute). Known findings listed in known-findings.json.', '5 C15'),
  'C06': ('exploration', 'ovl', 'reference authorisation table + sequential store model as oracle over the enumerated endpoint x credential x target x body-shape matrix, with byte-level directory snapshots around every request',
          'The matrix (about 1800 cells per state incl. expired/future/tampered/other-instance/demoted-admin/removed-user tokens, case-variant and invalid names, malformed bodies, ambiguous update credentials) is evaluated in several store states reached by random walks of allowed requests; refused requests must return a non-success status, disclose no list and leave the directory byte-identical; allowed ones must have exactly the model effect.',
@@ -61,7 +61,7 @@ CHECKS = {
          'Thousands of generated directories (extensions, contents, duplicates across extensions, .tmp variants, shuffled creation order, 1-40 entries) are judged by Check and by a reference predicate; Init must succeed exactly on empty directories and yield a valid store; after every completed operation of sequential agent histories (and a concurrent login/set-admin race with large auxiliary data) the directory invariants must hold; every command of the binary except init/check must exit 3 on invalid directories without changing them and run with --do-check=false.',
          'Directories are built from valid names only (the property quantifier).', '5 C16'),
  'C20': ('exploration', 'pamh+hx', 'AddressSanitizer + UBSan build of the unmodified C module driven by a scripted misbehaving server; syscall-wrapper monitor (select/read/write) for the bounded-time rule; exact reply-prefix oracle',
-         'The module is compiled from /repo with clang -fsanitize=address,undefined against stub PAM headers and run against a scripted unix-socket server over ~420 cases (all option subsets x password sources, user/password lengths 0..4096, reply grammar incl. over-long and mis-announced lengths, replies cut at every byte, dribble, early close, silence and delays on both sides of the timeout, short reads/writes and EINTR injected by wrappers): PAM_SUCCESS exactly when the readable reply begins with OK, request bytes equal the saslauthd encoding of the clipped fields, every socket read/write preceded by a finite select, no sanitizer report.',
+         'The module is compiled from /repo with clang -fsanitize=address,undefined against stub PAM headers and run against a scripted unix-socket server over ~420 cases (all option subsets x password sources, user/password lengths 0..4096, reply grammar incl. over-long and mis-announced lengths, replies cut at every byte, dribble, early close, silence and delays on both sides of the timeout, short reads/writes and EINTR injected by wrappers): PAM_SUCCESS exactly when the readable reply begins with OK, request bytes equal the saslauthd encoding of the clipped fields, every socket read/write preceded by a finite select, no sanitizer report. Further stages: the same build against the real agent binary (verdict = store verdict for the clipped fields) and, in the thorough tier, an uninstrumented build under valgrind memcheck.',
          'Stub PAM runtime; sanitizers are not a proof of memory safety; fds >= FD_SETSIZE out of scope.', '5 C20'),
  'C04': ('exploration', 'hx', 'differential monitor: every frontend of the running binary against store.Dir.Authenticate on the same quiescent directory',
          'The built binary serves a saslauthd socket, HTTP and LDAP on loopback port 0 (addresses parsed from its output); generated credential pairs with bytes special to one transport, boundary lengths, name variants and hostile names are submitted through SASL, basic-auth, API (plain and fully \\u-escaped JSON), LDAP bind and the CLI, and every verdict is compared with the store verdict taken before and after; store states advance through CLI/API management operations; induced store errors must be denials; a 32-way concurrent phase checks that verdicts are not swapped.',
